@@ -8,6 +8,11 @@ from vf import core, dsfamily, ds as D, dataset_mc
 TAGS = {"C19"}
 
 
+def _tag(ex):
+    """process_record: fails when applied to its own output."""
+    return ("tag", D.to_id(ex))
+
+
 def repeat_case(args) -> dict:
     name, tier = args
     root = core.fresh_dir("c19")
@@ -46,10 +51,19 @@ def repeat_case(args) -> dict:
                             kw["file_parallelism"] = par
                         if iface == "tf" and par == 2:
                             kw["batch_size"] = 2
+                        # a caller-supplied transformation that is not
+                        # idempotent: every epoch must apply it exactly once
+                        # to the stored example
+                        tagged = (iface in ("sync", "concurrent", "async")
+                                  and not sel and (sh + (par or 0)) % 2 == 0)
+                        if tagged:
+                            kw["process_record"] = _tag
                         try:
                             got = D.with_alarm(
-                                120, lambda: [D.to_id(e) for e in D.take(
-                                    ds_, split, iface, k, **kw)])
+                                120, lambda: [
+                                    (e[1] if tagged else D.to_id(e))
+                                    for e in D.take(ds_, split, iface, k,
+                                                    **kw)])
                         except Exception as e:  # pylint: disable=broad-except
                             out["bad"].append(
                                 ("raises", iface,
@@ -57,7 +71,8 @@ def repeat_case(args) -> dict:
                                  f"{type(e).__name__}: {str(e)[:120]}"))
                             continue
                         out["streams"] += 1
-                        kshow = {a: b for a, b in kw.items()
+                        kshow = {a: (b if a != "process_record" else "tag")
+                                 for a, b in kw.items()
                                  if a != "shard_filter"}
                         desc = f"{name}/{split} {iface} {kshow}{sname}"
                         if len(got) != k:
